@@ -55,7 +55,9 @@ RULE = ("packet lists of length 0-4 for: StringLineSerializer (LF/CR/CRLF x keep
         "subclass (separators of 1-3 bytes incl. self-overlapping), Base64EncoderSerializer (standard/urlsafe x checksum, "
         "separators 1-2 bytes), StructSerializer and a FixedSize test subclass, JSONSerializer line mode; byte stream "
         "produced by the real StreamProtocol.generate_chunks; every chunking of streams <= 10 bytes, all single cuts, "
-        "byte-by-byte and random k-cuts beyond; buffer-filling consumer with size hints 1..64. Non-trivial = >= 2 "
+        "byte-by-byte and random k-cuts beyond; buffer-filling consumer with size hints 1..64; raw JSON, file-based and "
+        "compressor framers; every shipped serializer end to end (kind 20); StapledPacketSerializer for every constructor "
+        "and capability pair (kind 30); the base64 codec for every payload length 0..19/49 (kind 31). Non-trivial = >= 2 "
         "packets and a cut strictly inside a frame's separator/fixed-size record, or a chunk spanning two frames.")
 TRUSTED = ["models coq/Frame/{ReadUntil,BufReadUntil}.v, coq/Stream/Consumer.v hand-written from the source",
            "inner one-shot codecs (str codecs, base64, struct, json) enter the model as a decode table computed by "
